@@ -5,6 +5,7 @@ package gen
 
 import (
 	"fmt"
+	"strings"
 	"unicode"
 
 	"pgregory.net/rapid"
@@ -55,7 +56,10 @@ func IsPairLetter(r rune) bool { return orbit(r) == 2 }
 func CaseNeutralOrPair(r rune) bool { o := orbit(r); return o == 1 || o == 2 }
 
 func init() {
-	for _, r := range []rune("abcdefghijlmnopqrtuvwxyzABCDEFGHIJLMNOPQRTUVWXYZéÉñÑüÜλΛπΠωΩжЖяЯюЮÿŸ") {
+	for _, r := range []rune("abcdefghijlmnopqrtuvwxyzABCDEFGHIJLMNOPQRTUVWXYZéÉñÑüÜλΛπΠωΩжЖяЯюЮÿŸ" +
+		// the first and last cased letters of the Latin-1, Greek and Cyrillic blocks and the neighbours of the
+		// holes in them (U+00D7, U+00F7): boundary values of range-based case helpers
+		"ÀàÞþÖöØøΑαΡρΣАаЯяЀѐЏџ") {
 		if orbit(r) == 2 {
 			PairLetters = append(PairLetters, r)
 		}
@@ -216,7 +220,47 @@ func (s *state) node(t *rapid.T, d int) *ast.Node {
 	if d <= 0 {
 		return s.atom(t)
 	}
-	switch k := rapid.IntRange(0, 18).Draw(t, "node"); {
+	switch k := rapid.IntRange(0, 20).Draw(t, "node"); {
+	case k == 20 && strings.Contains(s.cfg.Inline, "n") && !s.cfg.NoCond && !s.cfg.NoBareCond:
+		// an ExplicitCapture scope holding a conditional whose condition is in plain parentheses, then a plain
+		// capturing group outside the scope: parser state set inside the scope must not leak past its end
+		set := ast.Class(&cls.Expr{Items: []cls.Item{{Kind: cls.Char, Lo: s.letter(t)}, {Kind: cls.Char, Lo: 'q'}}})
+		cond := &ast.Node{K: ast.KCond, S2: "plain", Kids: []*ast.Node{ast.Group(ast.GNon, set), s.node(t, d-1), nil}}
+		if rapid.Bool().Draw(t, "scopeno") {
+			cond.Kids[2] = s.atom(t)
+		}
+		scope := &ast.Node{K: ast.KOpt, S: "n", Kids: []*ast.Node{ast.Seq(s.atom(t), cond)}}
+		if rapid.Bool().Draw(t, "scopeswitch") {
+			scope = ast.Group(ast.GNon, ast.Seq(&ast.Node{K: ast.KOpt, S: "n"}, s.atom(t), cond))
+		}
+		return ast.Seq(scope, ast.Group(ast.GCap, s.node(t, d-1)))
+	case k == 19:
+		// a loop over one character (plain, lazy or inside an atomic group) directly followed by the same
+		// character, a literal starting with it, or another loop over it: the shapes that loop coalescing merges
+		ch := s.letter(t)
+		for ch == '\n' || ch == 0x0301 {
+			ch = 'a'
+		}
+		q := ast.Quant(ast.Lit(ch), 0, -1, false)
+		s.quantBounds(t, q)
+		var first *ast.Node = q
+		if rapid.IntRange(0, 2).Draw(t, "adjatomic") == 0 {
+			first = ast.Group(ast.GAtomic, q)
+		}
+		var next *ast.Node
+		switch rapid.IntRange(0, 3).Draw(t, "adjnext") {
+		case 0:
+			next = ast.Lit(ch)
+		case 1:
+			next = ast.Lit(ch, s.letter(t))
+		case 2:
+			next = ast.Lit(ch, ch, s.letter(t))
+		default:
+			q2 := ast.Quant(ast.Lit(ch), 0, -1, false)
+			s.quantBounds(t, q2)
+			next = q2
+		}
+		return ast.Seq(first, next)
 	case k <= 2:
 		n := ast.Seq()
 		c := rapid.IntRange(2, 3).Draw(t, "seqlen")
@@ -299,6 +343,9 @@ func (s *state) node(t *rapid.T, d int) *ast.Node {
 		case tk == 2 && !s.cfg.NoBareCond:
 			// bare expression test; parenthesised group so that the text is unambiguous
 			c.Kids[0] = ast.Group(ast.GNon, s.node(t, d-1))
+			if rapid.Bool().Draw(t, "plaincond") {
+				c.S2 = "plain" // printed as (?(expr)...) when the expression cannot be mistaken for a group name
+			}
 		default:
 			lk := []ast.GKind{ast.GLookahead, ast.GNegLookahead}
 			if !s.cfg.NoLookbehind {
